@@ -196,3 +196,136 @@ func vC11LeafList(maxN, maxM int) {
 	vAssert("C11.leaflist.patched-old-equals-new", same)
 	vReach("C11.leaflist.end")
 }
+
+// ---- addElemChanges on the children of a non-leaf element (AdaptationSets of a Period, addressed by @id) ----
+
+func init() {
+	vHarnesses["vH_C11_children_3_3"] = vH_C11_children_3_3
+	vHarnesses["vH_C11_children_4_4"] = vH_C11_children_4_4
+}
+
+func vH_C11_children_3_3() { vC11Children(3, 3, 4, false) }
+func vH_C11_children_4_4() { vC11Children(4, 4, 5, false) }
+
+func init() {
+	vHarnesses["vH_C11_children_moved_3_3"] = vH_C11_children_moved_3_3
+}
+
+// pairs in which an element present in both lists changes its position relative to another one
+func vH_C11_children_moved_3_3() { vC11Children(3, 3, 4, true) }
+
+// vMoved: some pair of ids common to both lists appears in a different relative order.
+func vMoved(a, b []string) bool {
+	for i := 0; i < len(a); i++ {
+		for j := i + 1; j < len(a); j++ {
+			pi, pj := vIndexOf(b, a[i]), vIndexOf(b, a[j])
+			if pi >= 0 && pj >= 0 && pi > pj {
+				return true
+			}
+		}
+	}
+	return false
+}
+
+var vIDs = [6]string{"a", "b", "c", "d", "e", "f"}
+
+// vMkPeriod builds a Period whose n children are AdaptationSets with pairwise different ids out of nIDs.
+func vMkPeriod(prefix string, n, nIDs int) (*etree.Element, []string) {
+	p := etree.NewElement("Period")
+	p.CreateAttr("id", "P0")
+	ids := make([]string, n)
+	var used [6]bool
+	for i := 0; i < n; i++ {
+		k := vConc(vInt(fmt.Sprintf("%s%d", prefix, i), 0, nIDs-1))
+		vAssume(!used[k])
+		used[k] = true
+		ids[i] = vIDs[k]
+		as := p.CreateElement("AdaptationSet")
+		as.CreateAttr("id", ids[i])
+	}
+	return p, ids
+}
+
+// vSelID parses "<path>/AdaptationSet[@id='x']" and returns x.
+func vSelID(sel, path string) string {
+	pre := path + "/AdaptationSet[@id='"
+	if len(sel) != len(pre)+3 || sel[:len(pre)] != pre || sel[len(sel)-2:] != "']" {
+		return ""
+	}
+	return sel[len(pre) : len(pre)+1]
+}
+
+func vIndexOf(l []string, s string) int {
+	for i, x := range l {
+		if x == s {
+			return i
+		}
+	}
+	return -1
+}
+
+func vC11Children(maxN, maxM, nIDs int, moved bool) {
+	N := vConc(vInt("N", 0, maxN))
+	M := vConc(vInt("M", 0, maxM))
+	old, oldIDs := vMkPeriod("e", N, nIDs)
+	nw, newIDs := vMkPeriod("f", M, nIDs)
+	if N == 0 || M == 0 {
+		// a Period without children is a leaf and is handled by addLeafChanges (replace as a whole when text differs)
+		return
+	}
+	if vMoved(oldIDs, newIDs) != moved {
+		return
+	}
+	pfx := "C11.children"
+	if moved {
+		pfx = "C11.children-moved"
+	}
+	root := etree.NewElement("Patch")
+	const path = "/MPD/Period[@id='P0']"
+	err := addElemChanges(root, old, nw, path)
+	vAssert(pfx+".ok", err == nil)
+	cur := make([]string, 0, N+M)
+	cur = append(cur, oldIDs...)
+	for _, op := range root.ChildElements() {
+		sel := op.SelectAttrValue("sel", "")
+		switch op.Tag {
+		case "remove":
+			k := vIndexOf(cur, vSelID(sel, path))
+			vAssert(pfx+".remove-selects-existing", k >= 0)
+			if k >= 0 {
+				cur = append(cur[:k], cur[k+1:]...)
+			}
+		case "add":
+			ch := op.ChildElements()
+			vAssert(pfx+".add-has-one-child", len(ch) == 1)
+			if len(ch) != 1 {
+				continue
+			}
+			c := ch[0].SelectAttrValue("id", "")
+			vAssert(pfx+".add-id-unique", vIndexOf(cur, c) < 0)
+			pos := op.SelectAttrValue("pos", "")
+			if pos == "prepend" {
+				vAssert(pfx+".prepend-selects-parent", sel == path)
+				cur = append([]string{c}, cur...)
+			} else {
+				vAssert(pfx+".add-pos-after", pos == "after")
+				k := vIndexOf(cur, vSelID(sel, path))
+				vAssert(pfx+".add-after-existing", k >= 0)
+				if k >= 0 {
+					rest := append([]string{c}, cur[k+1:]...)
+					cur = append(cur[:k+1], rest...)
+				}
+			}
+		default:
+			vAssert(pfx+".known-op", false)
+		}
+	}
+	same := len(cur) == M
+	for i := 0; i < len(cur) && i < M; i++ {
+		if cur[i] != newIDs[i] {
+			same = false
+		}
+	}
+	vAssert(pfx+".patched-old-equals-new", same)
+	vReach(pfx + ".end")
+}
